@@ -394,6 +394,7 @@ def shrink(exe, seq):
 
 
 def run(chk, seqs=None):
+    seqs_given = seqs
     import apitables
     import cfun
     # 1. regenerate the tables from the current tree
@@ -504,8 +505,25 @@ def run(chk, seqs=None):
                 violations.append((key, text, seq, r2, model))
             elif kind == "corr":
                 corr.append(text)
+    # long sessions: resources an application hands back through the API (packets via release_out_buffer, recon frames via
+    # get_recon) must really return to their pools - otherwise send_picture / get_packet block for ever once the pool (18 recon
+    # frames here) is used up.  Only a session longer than every pool shows that; the seeded call sequences above are short.
+    long_sessions = []
+    if seqs_given is None:
+        for nfr, rec in ((150, 1), (150, 0)) if chk.tier == "quick" else ((150, 1), (150, 0), (400, 1), (400, 0)):
+            a = {"w": 64, "h": 64, "n": nfr, "cfg.enc_mode": 8, "cfg.logical_processors": 2, "recon": rec, "decode": 0, "drain": 0,
+                 "final_nb": 1, "content": 4, "seed": chk.seed, "watchdog": 120}
+            r = C.run_e2e(a, timeout=1200)
+            ok = (not r["hung"] and not r["crashed"] and len(r["PKT"]) == nfr and (not rec or len(r["RECON"]) == nfr) and not r["ERR"])
+            long_sessions.append({"frames": nfr, "recon": rec, "packets": len(r["PKT"]), "recons": len(r["RECON"]), "ok": ok})
+            if not ok:
+                violations.append((None, "a long session (drain after every send: non-blocking get_packet + release_out_buffer%s, then EOS) does not "
+                                   "complete: an API call blocks for ever or the session loses output (packets %d of %d, recon frames %d, hung=%s, crashed=%s, "
+                                   "errors=%s)\nargs: %s" % (" + get_recon" if rec else "", len(r["PKT"]), nfr, len(r["RECON"]), r["hung"], r["crashed"], r["ERR"][:3], r["argv"]),
+                                   "long-session", None, None))
+    chk.cov["long_sessions"] = long_sessions
     # evidence
-    chk.cov["evaluations"] = len(seqs)
+    chk.cov["evaluations"] = len(seqs) + len(long_sessions)
     chk.cov["calls_executed"] = sum(len(r["codes"]) for r in reals if r)
     chk.cov["distinct_nontrivial"] = len(pairs)
     chk.cov["rule"] = ("distinct (protocol state before the call, API call with its NULL/valid/invalid argument variant) pairs that were actually executed "
